@@ -3,6 +3,7 @@ package props
 import (
 	"bytes"
 	"fmt"
+	"math/big"
 	"strings"
 	"testing"
 
@@ -233,6 +234,54 @@ func dynamicBadLiteral(t *rapid.T, sp *rapidSpeller, kind string) (badLiteral, b
 	case model.IsSigned(kind) && kind != model.I8:
 		_, h := intRangeOf(kind)
 		hi = uint64(h)
+	case kind == model.U8 || kind == model.I8:
+		// 64-bit items: the excess is computed with math/big, so that literals just beyond 2^64 (20 decimal digits), around
+		// the multiples of 2^64 and anywhere up to 25 digits are produced - values that a hand-written digit loop wraps
+		top := new(big.Int).Lsh(big.NewInt(1), 64) // U8: first value beyond
+		if kind == model.I8 {
+			top = new(big.Int).Lsh(big.NewInt(1), 63)
+		}
+		v := new(big.Int)
+		switch rapid.IntRange(0, 4).Draw(t, "beyond64Class") {
+		case 0:
+			v.Add(top, big.NewInt(int64(rapid.IntRange(0, 300).Draw(t, "smallExcess"))))
+		case 1:
+			// k * 2^64 + r, r small or just below 2^64: wraps to an innocent value
+			v.Lsh(big.NewInt(int64(rapid.IntRange(1, 5).Draw(t, "wraps64"))), 64)
+			r := new(big.Int).SetUint64(rapid.Uint64().Draw(t, "residue64"))
+			switch rapid.IntRange(0, 2).Draw(t, "residueClass") {
+			case 0:
+				r.SetInt64(int64(rapid.IntRange(0, 1000).Draw(t, "lowResidue")))
+			case 1:
+				r.SetUint64(^uint64(0) - uint64(rapid.IntRange(0, 1000).Draw(t, "highResidue")))
+			}
+			v.Add(v, r)
+			if v.Cmp(top) < 0 {
+				v.Set(top)
+			}
+		case 2, 3:
+			// any value between the limit and 10^20 (the 20-digit decimals), uniformly
+			span := new(big.Int).Sub(new(big.Int).Exp(big.NewInt(10), big.NewInt(20), nil), top)
+			f := new(big.Int).SetUint64(rapid.Uint64().Draw(t, "frac"))
+			v.Mul(span, f).Rsh(v, 64).Add(v, top)
+		default:
+			v.Exp(big.NewInt(10), big.NewInt(int64(rapid.IntRange(20, 24).Draw(t, "digits"))), nil)
+			v.Add(v, new(big.Int).SetUint64(rapid.Uint64().Draw(t, "tail")))
+		}
+		text := v.Text(10)
+		switch rapid.IntRange(0, 5).Draw(t, "base64") {
+		case 4:
+			text = rapid.SampledFrom([]string{"0x", "0X"}).Draw(t, "hexPrefix") + v.Text(16)
+		case 5:
+			text = rapid.SampledFrom([]string{"0o", "0O"}).Draw(t, "octPrefix") + v.Text(8)
+		}
+		why := fmt.Sprintf("%s is beyond the range of %s", v.Text(10), kind)
+		if kind == model.I8 && rapid.Bool().Draw(t, "negativeSide") {
+			v.Add(v, big.NewInt(1))
+			text = "-" + v.Text(10)
+			why = fmt.Sprintf("-%s is beyond the range of %s", v.Text(10), kind)
+		}
+		return badLiteral{Text: text, Why: why}, true
 	default:
 		return badLiteral{}, false
 	}
